@@ -9,13 +9,13 @@ from pyvc.report import Check, run_check, seed, WORK
 from checks import sys_common as SC
 from spec import model, runner, designs as DS
 
-CALLS = ["synth:IterateSATGen", "synth:RandomGen", "synth:IterateGen", "print", "tabulate", "csv", "tuples", "dicts", "mismatch"]
+CALLS = ["synth:IterateSATGen", "synth:RandomGen", "synth:IterateGen", "synth:SMGen", "synth:CMSGen", "print", "tabulate", "csv", "tuples", "dicts", "mismatch"]
 
 
 def blocks_for(tier):
     """(name, builder -> (block, description or None))"""
     cur = {d["name"]: d for d in DS.curated()}
-    names = ["cross-2x2", "w-uncrossed", "within-uncrossed", "transition-crossed", "atmost1-c", "repeat-atmost-inner-min5", "nest-2in2", "merge-2v3-repeat", "window2-stride2"]
+    names = ["cross-2x2", "w-uncrossed", "within-uncrossed", "transition-crossed", "atmost1-c", "repeat-atmost-inner-min5", "nest-2in2", "merge-2v3-repeat", "window2-stride2", "w2-derived-crossed", "w-crossed-2x2"]
     out = [(n, ("desc", cur[n])) for n in names]
     out += [("continuous-plain", ("cont", 0)), ("continuous-derived", ("cont", 1)), ("continuous-window", ("cont", 2)), ("continuous-constraint", ("cont", 3))]
     return out
@@ -51,7 +51,7 @@ def snapshot(block):
 
 
 def _eval(arg):
-    name, spec, history, workdir = arg
+    name, spec, history, workdir, first_ok = arg
     import sweetpea as sp
     out = {"name": name, "history": list(history)}
     kind, payload = spec
@@ -88,6 +88,10 @@ def _eval(arg):
                         sp.sample_mismatch_experiment(block, {k: v for k, v in e.items() if not isinstance(v[0], float)} if kind == "cont" else e)
             except Exception as e:
                 out.setdefault("call_errors", []).append([call, type(e).__name__, str(e)[:200]])
+                if call.startswith("synth:") and first_ok.get(call):
+                    # "every later synthesize_trials call succeeds": the same call succeeds as the FIRST call on a block of the same design in a
+                    # process of its own (stage 0), so this failure is damage done by the history, not the strategy's refusal of the design
+                    out.setdefault("synth_failed", []).append([call, type(e).__name__, str(e)[:200]])
             after = snapshot(block)
             if after != before:
                 diff = {k: [before[k], after[k]] for k in before if before[k] != after[k]}
@@ -124,10 +128,22 @@ def _eval(arg):
     return out
 
 
+def _first(arg):
+    """stage 0: does strategy S succeed as the very first library call on a fresh block, in a process of its own?"""
+    name, spec, call = arg
+    kind, payload = spec
+    try:
+        block = model.build(payload)[0] if kind == "desc" else build_cont(payload)
+        runner.synth(block, 2, call.split(":")[1])
+        return True
+    except Exception:
+        return False
+
+
 def main(tier):
     ck = Check("C19", tier, "exploration",
                "Histories of library calls on one block: for blocks of D (incl. Repeat, Merge, Nest, weighted, windowed) and blocks with continuous factors, every "
-               "call sequence of the stated length over synthesize_trials (three strategies), print_experiments, tabulate_experiments, save_experiments_csv, "
+               "call sequence of the stated length over synthesize_trials (IterateSATGen, RandomGen, IterateGen, SMGen, CMSGen), print_experiments, tabulate_experiments, save_experiments_csv, "
                "experiments_to_tuples/dicts and sample_mismatch_experiment is executed; a ghost snapshot of the block's design-relevant state is compared "
                "before/after every call (frame condition: only caches may change), and afterwards synthesize_trials must succeed, return valid sequences and "
                "the same columns as the first call.")
@@ -135,15 +151,26 @@ def main(tier):
     rng = random.Random(seed())
     args = []
     WORK.mkdir(exist_ok=True)
+    synth_calls = [c for c in CALLS if c.startswith("synth:")]
+    fargs = [(name, spec, c) for name, spec in blocks_for(tier) for c in synth_calls]
+    fres = runner.pmap(_first, fargs, jobs=14, timeout=120)
+    first_ok = {}
+    for (name, spec, c), (st, r) in zip(fargs, fres):
+        first_ok.setdefault(name, {})[c] = (st == "ok" and r is True)
+    ck.extra["first_call_succeeds"] = first_ok
     for name, spec in blocks_for(tier):
         hists = list(itertools.product(CALLS, repeat=L))
         rng.shuffle(hists)
         # every single call and every ordered pair that starts with a non-synthesis call is included; the rest is sampled
-        chosen = [(c,) for c in CALLS] + hists[:(25 if tier == "quick" else 200)]
+        # all single calls, every strategy called twice in a row and twice with another strategy in between (state kept between runs of one strategy)
+        synths = [c for c in CALLS if c.startswith("synth:")]
+        chosen = [(c,) for c in CALLS] + [(c, c) for c in synths] + hists[:(20 if tier == "quick" else 200)]
+        if L >= 3:
+            chosen += [(c, o, c) for c in synths for o in synths if o != c]
         for i, h in enumerate(chosen):
-            args.append((name, spec, h, str(WORK / f"c19-{os.getpid()}-{len(args)}")))
+            args.append((name, spec, h, str(WORK / f"c19-{os.getpid()}-{len(args)}"), first_ok[name]))
     res = runner.pmap(_eval, args, jobs=14, timeout=120)
-    for (name, spec, h, wd), (st, r) in zip(args, res):
+    for (name, spec, h, wd, _fo), (st, r) in zip(args, res):
         oid = f"C19.history({name},{'>'.join(h)})"
         try:
             os.rmdir(wd)
@@ -157,6 +184,9 @@ def main(tier):
         if r.get("changed"):
             call, diff = r["changed"][0]
             bad = ("frame", f"call {call} changed the block: {diff}")
+        elif r.get("synth_failed"):
+            c_, en, em = r["synth_failed"][0]
+            bad = ("unusable", f"{c_} raised {en}: {em} after earlier calls on the same block, but succeeds as the first call on a fresh block of the same design in a process of its own")
         elif "final_exception" in r:
             bad = ("unusable", f"synthesize_trials after the history raised {r['final_exception']}")
         elif r.get("invalid"):
@@ -173,7 +203,7 @@ def main(tier):
             ck.violation(f"C19.{bad[0]}", f"{bad[0]}:{name}:{first_call}", f"block {name}, history {list(h)}: {bad[1][:400]}",
                          dict(replay_kind="history", block=name, history=list(h)), tags=dict(kind=bad[0], block=name, call=first_call))
         ck.sample(dict(block=name, history=list(h)))
-    ck.rule = f"one case per (block, call sequence of length <= {L}); all single calls, {25 if tier == 'quick' else 200} seeded longer sequences per block; 13 blocks incl. 4 with continuous factors"
+    ck.rule = f"one case per (block, call sequence of length <= {L}); all single calls, {25 if tier == 'quick' else 200} seeded longer sequences per block; 15 blocks incl. 4 with continuous factors; a synthesize_trials call that raises inside a history is a violation iff the same call succeeds first on a fresh block"
     ck.trust("CPython")
     ck.assume("design-relevant state = design, orig_design, crossings, constraint classes, continuous factors, exclusions, min_trials, act_design, errors, level names (caches are allowed to change)")
     return ck.finish()
